@@ -1,7 +1,7 @@
 (* Property C10: a nested scheduler behaves as one job; nesting is transparent.
    Only property theorems here. Model R, level 0. *)
 From AJ Require Import Common.Util Run.RModel Run.RFacts Run.RFacts2 Run.RInv Run.RInv4 Run.RInv5 Run.RMon Run.RProps1
-  Run.RProps2 Run.RProps3 Props.RExample Run.RWin Run.RProps4 Run.RShut1 Run.RShut2 Run.RTime Run.RFlat Run.RInvP Run.RExc.
+  Run.RProps2 Run.RProps3 Props.RExample Run.RWin Run.RProps4 Run.RShut1 Run.RShut2 Run.RTime Run.RFlat Run.RInvP Run.RExc Run.RSchedDef Run.RFlatten.
 
 (* (a) interface.  A nested scheduler starts (EBegin) under the very rule of an atomic job: all its
    requirements done, its parent's main loop running, a free slot in the parent's window (level
@@ -108,13 +108,62 @@ Theorem C10_transparent_end : forall c h s m, wf c = true -> Reach 3 c h s -> qu
 Proof. exact transparent_end. Qed.
 Print Assumptions C10_transparent_end.
 
-(* NOT PROVED: the equality of the two executions as a relation between the nested tree and the
-   tree with m dissolved into its parent (a simulation between two different trees).  The check
-   decides it on the implementation: every generated tree that contains such a nested scheduler
-   is run as it is and with the scheduler dissolved, and every atomic job must start and end at
-   the same virtual instants with the same outcome up to the first instant at which some scheduler
-   aborts (within that instant the order of callbacks decides ties between a completion and an
-   abort, and nesting legitimately changes that order). *)
+(* (f) the flattened graph, in closed form.  [is_schedule c S E] are the scheduling equations of a
+   tree: a job starts when its scheduler has begun and its requirements have ended, an atomic job
+   ends [dur] later, a scheduler ends when it has begun and all its jobs have ended.  They have
+   exactly one solution on a well-formed tree (existence and uniqueness below), the executable
+   solver is right whenever its own check passes, and RSched.v (theorem C10_runs_on_schedule
+   below) shows that every execution of a tree without window, timeout or forever job follows that
+   solution until a critical job raises.  The flattened graph [c'] of [c] (flat_ofb: depth 1, the
+   atomic jobs of c renamed by f, each requiring exactly its flat requirements [frq c x], i.e. the
+   atomic jobs it waits for directly or through nested schedulers) has the same solution on
+   every job: nested tree and flattened graph run every job at the same instants. *)
+Theorem C10_schedule_exists : forall c, wf c = true -> exists S E, is_schedule c S E.
+Proof. exact schedule_exists. Qed.
+Print Assumptions C10_schedule_exists.
+
+Theorem C10_schedule_unique : forall c S E S' E', wf c = true -> is_schedule c S E -> is_schedule c S' E' ->
+  forall x, x < njobs c -> S x = S' x /\ E x = E' x.
+Proof. exact schedule_unique. Qed.
+Print Assumptions C10_schedule_unique.
+
+Theorem C10_start_from_flat_requirements : forall c S E x, wf c = true -> is_schedule c S E ->
+  atomic_id c x = true -> S x = maxl 0%N (map E (frq c x)).
+Proof. exact start_from_flat_requirements. Qed.
+Print Assumptions C10_start_from_flat_requirements.
+
+Theorem C10_same_times_as_flattened : forall c c' f S E S' E', wf c = true -> wf c' = true ->
+  flat_ofb c c' f = true -> is_schedule c S E -> is_schedule c' S' E' ->
+  forall x, atomic_id c x = true -> S' (fname f x) = S x /\ E' (fname f x) = E x.
+Proof. exact same_times_as_flattened. Qed.
+Print Assumptions C10_same_times_as_flattened.
+
+Theorem C10_solver_sound : forall c lS lE, solve c = (lS, lE) -> is_scheduleb c lS lE = true ->
+  is_schedule c (tab lS) (tab lE).
+Proof. exact solve_sound. Qed.
+Print Assumptions C10_solver_sound.
+
+(* non-vacuity of (f): a nested tree (critical nested scheduler 1 = {2; 3 requires 2}, job 4
+   requires 1) and its flattened graph: the relation holds, both have a schedule, same instants *)
+Definition ex_nested : cfg := mkCfg
+  [ mkJ 0 true false false [] None ORet 0 None 0 None (Some 1%N);
+    mkJ 0 true true false [] None ORet 0 None 0 None (Some 1%N);
+    mkJ 1 false false false [] (Some 2%N) ORet 0 (Some 0%N) 0 None None;
+    mkJ 1 false true false [2] (Some 3%N) ORet 0 (Some 0%N) 0 None None;
+    mkJ 0 false false false [1] (Some 1%N) ORet 0 (Some 0%N) 0 None None ] false.
+Definition ex_flattened : cfg := mkCfg
+  [ mkJ 0 true false false [] None ORet 0 None 0 None (Some 1%N);
+    mkJ 0 false false false [] (Some 2%N) ORet 0 (Some 0%N) 0 None None;
+    mkJ 0 false true false [1] (Some 3%N) ORet 0 (Some 0%N) 0 None None;
+    mkJ 0 false false false [1; 2] (Some 1%N) ORet 0 (Some 0%N) 0 None None ] false.
+Example C10_flattened_nonvacuous :
+  wf ex_nested = true /\ wf ex_flattened = true /\ plain ex_nested = true /\ plain ex_flattened = true /\
+  flat_ofb ex_nested ex_flattened [0; 0; 1; 2; 3] = true /\ frq ex_nested 4 = [2; 3] /\
+  solve ex_nested = ([0; 0; 0; 2; 5]%N, [6; 5; 2; 5; 6]%N) /\
+  (let '(lS, lE) := solve ex_nested in is_scheduleb ex_nested lS lE) = true /\
+  solve ex_flattened = ([0; 0; 2; 5]%N, [6; 2; 5; 6]%N) /\
+  (let '(lS, lE) := solve ex_flattened in is_scheduleb ex_flattened lS lE) = true.
+Proof. repeat split; vm_compute; reflexivity. Qed.
 
 Example C10_nonvacuous :
   accept 3 ex_cfg ex_hist = true /\
